@@ -14,9 +14,9 @@ from . import common
 
 JOBS = {
     "quick": [("path", 2100), ("ladder", 1200), ("comb", 2000), ("polymer", 1500), ("peptide", 1500), ("cycle", 5000), ("h2", 4000), ("isolated", 4000),
-              ("complete", 80), ("single", 1), ("caterpillar", 1500), ("star", 3000), ("grid", 900), ("bintree", 2047), ("steer", 0), ("small-sweep", 0)],
+              ("complete", 80), ("single", 1), ("caterpillar", 1500), ("cycle13c", 3000), ("star", 3000), ("grid", 900), ("bintree", 2047), ("steer", 0), ("small-sweep", 0)],
     "thorough": [("path", 6000), ("path", 3500), ("ladder", 4000), ("comb", 6000), ("polymer", 6000), ("peptide", 5000), ("cycle", 10000), ("h2", 10000), ("isolated", 10000),
-                 ("complete", 150), ("single", 1), ("caterpillar", 6000), ("star", 10000), ("grid", 2500), ("bintree", 8191), ("steer", 0), ("small-sweep", 0)],
+                 ("complete", 150), ("single", 1), ("caterpillar", 6000), ("cycle13c", 8000), ("star", 10000), ("grid", 2500), ("bintree", 8191), ("steer", 0), ("small-sweep", 0)],
 }
 SPEC = {
     "level": "exploration",
@@ -145,7 +145,7 @@ def steer(ctx, nmax):
     """Depth monitor: depth(n) per family at small sizes; drive the extrapolated critical size for depth-linear families."""
     limit = sys.getrecursionlimit()
     run_pipeline(ctx, G.family("path", 32), "warm-up")  # fill the ANTLR prediction cache: its cold first parse is deep
-    for fam in ("path", "comb", "ladder", "polymer", "peptide", "caterpillar", "cycle", "bintree", "star"):
+    for fam in ("path", "comb", "ladder", "polymer", "peptide", "caterpillar", "cycle", "cycle13c", "bintree", "star"):
         table = []
         for n in (64, 128, 256, 512):
             res = run_pipeline(ctx, G.family(fam, n), f"{fam}{n}", measure_depth=True)
@@ -170,7 +170,7 @@ def steer(ctx, nmax):
 
 
 def small_sweep(ctx):
-    for fam in ("path", "cycle", "ladder", "comb", "caterpillar", "star", "polymer", "peptide", "h2", "isolated", "complete", "grid", "bintree"):
+    for fam in ("path", "cycle", "cycle13c", "ladder", "comb", "caterpillar", "star", "polymer", "peptide", "h2", "isolated", "complete", "grid", "bintree"):
         for n in range(1, 41):
             if fam == "complete" and n > 20:
                 continue
